@@ -87,3 +87,35 @@ Definition entry_matrix (a : list Z) : list Z :=
 Definition entry_static_detail (_ : list Z) : list Z :=
   enc_list (fun e => enc_str (fst e) ++ [enc_bool (module_imports_ok e)]) import_table ++
   enc_list (fun s => [enc_bool (dynamic_import_ok s); enc_bool (no_exec_site s); enc_bool (write_site_ok s)]) call_sites.
+
+(** cmd 95 -- the run with the modelled report generators plugged in (Model/RunCompose.v):
+    [op_lang; jp_lang; rinput (ReportInput.rd_rinput); fenv (EntryFull.rd_fenv)]
+    -> 0 :: n :: n x (generator code, 1, number of sheets | 0, failure code: 11 KeyError, 12 IndexError, else err code),
+       in discovery order of the rinput's country, every generator evaluated (the harness cuts at the first failure);
+       then the derived asset facts: m :: m x (present, negative, |types|, types..., hidden year, holders) *)
+From RP2V Require Import Model.ReportInput Model.FullReport Model.EntryFull Model.RunCompose.
+
+Definition gfail_code (f : gfail) : Z :=
+  match f with GFKeyError => 11 | GFIndexError => 12 | GFErr e => err_code e end.
+
+Definition entry_run_reports (a : list Z) : list Z :=
+  match a with
+  | ol :: jl :: s =>
+    match rd_rinput s with
+    | None => [-1]
+    | Some (Err e, _) => [err_code e]
+    | Some (Ok i, s1) =>
+      match rd_fenv s1 with
+      | None => [-1]
+      | Some (env, _) =>
+        let v := {| rv_op_lang := ol; rv_jp_lang := jl; rv_fenv := env |} in
+        0 :: enc_list (fun g => gen_code g :: match run_gen v i g with
+                                              | inl sh => [1; Z.of_nat (length sh)]
+                                              | inr f => [0; gfail_code f]
+                                              end) (discovery (rp_country i))
+          ++ enc_list (fun f => [enc_bool (af_present f); enc_bool (af_negative f)] ++ enc_list (fun t => [ttype_code t]) (af_event_types f)
+                                ++ [enc_bool (af_hidden_year f); af_holders f]) (inp_of_rinput i)
+      end
+    end
+  | _ => [-1]
+  end.
